@@ -369,61 +369,60 @@ rc::Gen<scase_t> gen_case(const family_t family)
 }
 
 // ---- mechanism predicate of finding F13 (ellipsoid: convergence decided by rounding noise) ------------
-// The shape matrix H of the ellipsoid method is re-built along the trajectory the library actually took (the
-// points, values and sub-gradients it was shown, in call order) with the deep-cut update of src/solver/ellipsoid.cpp,
-// once in long double and once in double. Each replay either completes - and yields the two quantities the library
-// compares with its thresholds when it stops, g'Hg of the last update and at the current point - or breaks down at
-// some step (g'Hg <= 0 or not finite; impossible in exact arithmetic, where H stays positive definite).
-// The mechanism is present when the outcome depends on the precision: the two replays break down at different steps,
-// only one of them breaks down, or their g'Hg differ by more than half - and the long double replay does not show
-// that the stopping criterion is genuinely met. A wrong stopping rule or a wrong update formula does not match: both
-// replays then agree with each other (same values, or the same break-down step with the same value).
-struct shape_replay_t
+// An independent, harness-side implementation of the documented algorithm (deep-cut ellipsoid method with the two
+// exits of src/solver/ellipsoid.cpp, plain loops, double precision, its own trajectory) is run on the same instance
+// from the same start, for a few relative perturbations of the initial radius of the order 1e-12. The mechanism is
+// present when this reference ALSO reports convergence with a gap above the bound for at least one of them: the
+// instance defeats the algorithm in double precision, whoever implements it. A defect of the library's own code
+// (wrong update, wrong stopping rule) is not absorbed, except on the ~1e-6 of instances that are fragile anyway.
+struct reference_run_t
 {
-    bool        completed{false};
-    size_t      broke_at{0};       // step at which g'Hg stopped being positive (when not completed)
-    long double last_update{0.0L}; // g'Hg used for the last update (test `sqrt(gHg) < epsilon`), or at the break-down
-    long double current{0.0L};     // g'Hg at the last evaluated point (test `gHg < machine epsilon`)
+    bool   converged{false};
+    double ratio{0.0}; // (f(best) - f*) / (10 epsilon) of the reference run
+    int    iterations{0};
 };
 
-template <class treal>
-shape_replay_t replay_shape(const std::vector<counted_t::eval_t>& history, const int n, const double R)
+reference_run_t reference_ellipsoid(const scase_t& c, const nano::function_t& function, const double R)
 {
-    shape_replay_t     out;
-    const auto         N  = static_cast<size_t>(n);
-    const treal        ln = static_cast<treal>(n);
-    std::vector<treal> H(N * N, treal(0)), Hg(N);
+    reference_run_t out;
+    const auto      n = c.n;
+    const auto      N = static_cast<size_t>(n);
+    const double    dn = static_cast<double>(n);
+    vector_t        x = to_vector(c.x0), g(n), best_x = x;
+    std::vector<double> H(N * N, 0.0), Hg(N);
     for (size_t i = 0; i < N; ++i)
     {
-        H[i * N + i] = static_cast<treal>(R) * static_cast<treal>(R);
+        H[i * N + i] = R * R;
     }
-    const auto quad = [&](const std::vector<double>& g)
+    int    evals = 2;
+    double f     = function.vgrad(x, g);
+    double best  = f;
+    while (evals < c.max_evals)
     {
-        treal gHg = treal(0);
+        double gHg = 0.0;
         for (size_t i = 0; i < N; ++i)
         {
-            Hg[i] = treal(0);
+            Hg[i] = 0.0;
             for (size_t j = 0; j < N; ++j)
             {
-                Hg[i] += H[i * N + j] * static_cast<treal>(g[j]);
+                Hg[i] += H[i * N + j] * g(static_cast<tensor_size_t>(j));
             }
-            gHg += static_cast<treal>(g[i]) * Hg[i];
+            gHg += g(static_cast<tensor_size_t>(i)) * Hg[i];
         }
-        return gHg;
-    };
-    treal best = static_cast<treal>(history[0].f);
-    for (size_t k = 0; k + 1 < history.size(); ++k)
-    {
-        const auto gHg  = quad(history[k].g);
-        out.last_update = static_cast<long double>(gHg);
-        if (!(gHg > treal(0)) || !std::isfinite(static_cast<double>(gHg)))
+        if (gHg < std::numeric_limits<double>::epsilon())
         {
-            out.broke_at = k;
-            return out;
+            out.converged = true;
+            break;
         }
-        const auto alpha = (static_cast<treal>(history[k].f) - best) / std::sqrt(gHg);
-        const auto scale = (ln * ln) / (ln * ln - treal(1)) * (treal(1) - alpha * alpha);
-        const auto beta  = treal(2) * (treal(1) + ln * alpha) / (ln + treal(1)) / (treal(1) + alpha) / gHg;
+        const auto root  = std::sqrt(gHg);
+        const auto alpha = (f - best) / root;
+        const auto step  = (1.0 + dn * alpha) / (dn + 1.0) / root;
+        const auto scale = (dn * dn) / (dn * dn - 1.0) * (1.0 - alpha * alpha);
+        const auto beta  = 2.0 * (1.0 + dn * alpha) / (dn + 1.0) / (1.0 + alpha) / gHg;
+        for (size_t i = 0; i < N; ++i)
+        {
+            x(static_cast<tensor_size_t>(i)) -= step * Hg[i];
+        }
         for (size_t i = 0; i < N; ++i)
         {
             for (size_t j = 0; j < N; ++j)
@@ -431,39 +430,54 @@ shape_replay_t replay_shape(const std::vector<counted_t::eval_t>& history, const
                 H[i * N + j] = scale * (H[i * N + j] - beta * Hg[i] * Hg[j]);
             }
         }
-        best = std::min(best, static_cast<treal>(history[k + 1].f));
+        f = function.vgrad(x, g);
+        evals += 2;
+        out.iterations++;
+        if (!std::isfinite(f))
+        {
+            break;
+        }
+        if (f < best)
+        {
+            best   = f;
+            best_x = x;
+        }
+        if (root < c.epsilon)
+        {
+            out.converged = true;
+            break;
+        }
     }
-    const auto gHg = quad(history.back().g);
-    out.current    = static_cast<long double>(gHg);
-    out.completed  = std::isfinite(static_cast<double>(gHg));
-    out.broke_at   = history.size();
+    out.ratio = static_cast<double>(reference_gap(c, best_x).gap / (10.0L * static_cast<long double>(c.epsilon)));
     return out;
 }
 
-struct cancellation_t
+struct fragility_t
 {
-    bool           present{false};
-    shape_replay_t exact, rough;
+    bool   present{false};
+    int    failing{0}, runs{0};
+    double worst_ratio{0.0};
 };
 
-cancellation_t shape_cancellation(const std::vector<counted_t::eval_t>& history, const int n, const double R, const double epsilon)
+fragility_t double_precision_fragility(const scase_t& c)
 {
-    cancellation_t out;
-    if (n < 2 || history.size() < 2)
+    fragility_t out;
+    if (c.n < 2)
     {
         return out;
     }
-    out.exact = replay_shape<long double>(history, n, R);
-    out.rough = replay_shape<double>(history, n, R);
-
-    const auto close = [](const long double a, const long double b)
-    { return std::isfinite(static_cast<double>(a)) && std::isfinite(static_cast<double>(b)) && std::fabs(a - b) <= 0.5L * std::max(std::fabs(a), std::fabs(b)); };
-    const auto threshold = 4.0L * static_cast<long double>(epsilon) * static_cast<long double>(epsilon); // (2 eps)^2
-    const auto met       = out.exact.completed && (out.exact.last_update <= threshold || out.exact.current <= threshold);
-    const auto agree     = out.exact.completed == out.rough.completed && out.exact.broke_at == out.rough.broke_at &&
-                       close(out.exact.last_update, out.rough.last_update) &&
-                       (!out.exact.completed || close(out.exact.current, out.rough.current));
-    out.present = !met && !agree;
+    const sharp_t function(c);
+    for (int j = 0; j < 8; ++j)
+    {
+        const auto run = reference_ellipsoid(c, function, c.radius * (1.0 + static_cast<double>(j) * 0x1p-40));
+        out.runs++;
+        if (run.converged && run.ratio > 1.0)
+        {
+            out.failing++;
+            out.worst_ratio = std::max(out.worst_ratio, run.ratio);
+        }
+    }
+    out.present = out.failing > 0;
     return out;
 }
 
@@ -569,7 +583,6 @@ verdict_t check_case(const scase_t& c, ctx_t& ctx)
     }
 
     function.limit(8 * (static_cast<int64_t>(c.max_evals) + 1100 + 8 * c.n));
-    function.record(ellipsoid);
     nano::solver_state_t state;
     try
     {
@@ -676,19 +689,16 @@ verdict_t check_case(const scase_t& c, ctx_t& ctx)
         }
         if (ratio > 1.0 && ellipsoid)
         {
-            // mechanism of finding F13: the shape matrix has lost its accuracy, g'Hg is cancellation noise (possibly
-            // negative, which the `gHg < machine epsilon` exit takes for convergence)
-            const auto shape = shape_cancellation(function.history(), c.n, c.radius, c.epsilon);
-            if (shape.present)
+            // mechanism of finding F13: the recurrence of the shape matrix loses its accuracy in double precision and
+            // g'Hg becomes cancellation noise (possibly negative, which the `gHg < machine epsilon` exit takes for
+            // convergence): an independent double-precision implementation of the algorithm fails on this instance too
+            const auto fragile = double_precision_fragility(c);
+            if (fragile.present)
             {
-                const auto show = [](const shape_replay_t& r)
-                {
-                    return r.completed ? cat("g'Hg last update ", static_cast<double>(r.last_update), ", current ", static_cast<double>(r.current))
-                                       : cat("broke down at step ", r.broke_at, " with g'Hg ", static_cast<double>(r.last_update));
-                };
                 return verdict_t::known("C03/converged-not-optimal/ellipsoid/shape-matrix-cancellation",
-                                        cat("f(x)-f*=", static_cast<double>(ref.gap), " bound=", static_cast<double>(bound), " eps^2=", c.epsilon * c.epsilon,
-                                            "; replay of H in long double: ", show(shape.exact), "; in double: ", show(shape.rough), "; ", info()));
+                                        cat("f(x)-f*=", static_cast<double>(ref.gap), " bound=", static_cast<double>(bound),
+                                            "; the harness-side double-precision ellipsoid method also reports convergence above the bound in ",
+                                            fragile.failing, " of ", fragile.runs, " runs (worst gap/bound ", fragile.worst_ratio, "); ", info()));
             }
         }
         if (ratio > 10.0)
